@@ -8,26 +8,29 @@ Open Scope N_scope.
 Definition agree (c : sctx) (h : rhead) (keeps : bool) : Prop :=
   (client_close h = false -> keeps = true) /\ (keeps && client_waits_eof (q_head c) h = false).
 
-Theorem keepalive_agree_partial c r h keeps :
-  server_prepare c r = SHead h keeps -> h10_close_delimited_kept c r = false -> agree c h keeps.
+Theorem keepalive_agree c r h keeps :
+  server_prepare c r = SHead h keeps -> agree c h keeps.
 Proof.
   destruct c as [v11 ka hd], r as [st len ch fc].
-  unfold server_prepare, h10_close_delimited_kept, must_be_empty, agree, client_close, client_waits_eof.
+  unfold server_prepare, must_be_empty, agree, client_close, client_waits_eof.
   cbn [q_v11 q_keep_alive q_head p_status p_length p_chunked p_force_close].
   unfold h10_nolength_clears_stored_keepalive.
   destruct (empty_body_status st) eqn:Es; destruct v11, ka, hd, ch, fc, len as [n|];
     cbn; intros H; inversion H; subst; cbn [h_conn h_v11 h_status h_cl h_te]; try rewrite Es; cbn;
-    intros; try discriminate; split; try reflexivity; intros; try discriminate; reflexivity.
+    split; try reflexivity; intros; try discriminate; reflexivity.
 Qed.
 
-Theorem keepalive_agree_refuted :
-  exists c r h,
-    server_prepare c r = SHead h true /\ client_close h = true /\ client_waits_eof (q_head c) h = true /\
-    h10_close_delimited_kept c r = true.
-Proof.
-  exists (mkCtx false true false), (mkResp 200 None false false), (mkHead false 200 None false CNone).
-  vm_compute. repeat split; reflexivity.
-Qed.
+(* the family that used to deadlock (HTTP/1.0 keep-alive, body, no length; fixed by 796e67c): the server now closes,
+   which is what ends the close-delimited body the client is reading *)
+Lemma h10_family_now_closes :
+  h10_close_delimited_kept (mkCtx false true false) (mkResp 200 None false false) = true /\
+  server_prepare (mkCtx false true false) (mkResp 200 None false false) = SHead (mkHead false 200 None false CNone) false /\
+  client_close (mkHead false 200 None false CNone) = true /\ client_waits_eof false (mkHead false 200 None false CNone) = true.
+Proof. vm_compute. repeat split; reflexivity. Qed.
+
+(* Expect: 100-continue: the client only waits for a `100 Continue` the server will send *)
+Lemma expect_no_deadlock e v : continue_waiter_created e v = true -> server_sends_100 e v = true.
+Proof. unfold continue_waiter_created, server_sends_100. exact (fun H => H). Qed.
 
 Lemma agree_example :
   (exists h, server_prepare (mkCtx true true false) (mkResp 200 None false false) = SHead h true /\
